@@ -5,7 +5,7 @@ from vf.env import pick, verdict, observe, safe, build, DictCache
 from vf.ob import obligation, shard
 
 META = {
-    "bounds": "7 mutation documents (2-4 root fields, aliases, fragments at the root, nested selections with a list), <= 4 gated nested resolvers per document "
+    "bounds": "7 mutation documents x 5 engines (one with parent_concurrently=False on the non-null `audit` fields) (2-4 root fields, aliases, fragments at the root, nested selections with a list), <= 4 gated nested resolvers per document "
               "(every completion order), failure placement over {none, each gated nested field, a nullable root, a non-null root, argument coercion of a nullable root, a non-null root whose custom scalar answers null during completion, a nullable root raising a duck-typed coercible exception}; concurrent and sequential engine configurations, mutation root type named Mutation / custom name / added by `extend schema`",
     "outside": "more than 4 simultaneously pending nested resolvers; subscription/query operations (C08)",
     "explanation": "Start/finish log of every resolver: the first event of root field i+1 must come after the last event of root field i's whole subtree.",
@@ -89,6 +89,14 @@ try:
     ENGS.append(build(SDL_EXT, "c09_d", custom_default_resolver=universal, query_cache_decorator=DictCache()))
 except Exception:        # `extend schema` with an operation type may not be supported by the SDL grammar: then only the named variant is used
     pass
+# engine "e": the per-resolver option parent_concurrently=False on the non-null fields `audit` (awaited in place while their concurrent siblings are
+# only collected): a failing in-place field must not leave siblings of the same root running when the next root starts
+from tartiflette import Resolver  # noqa: E402
+for _t in ("Mid", "Leaf"):
+    Resolver("%s.audit" % _t, schema_name="c09_e", parent_concurrently=False)(universal)
+Directive("ab", schema_name="c09_e")(AB())
+Scalar("Tok", schema_name="c09_e")(Tok)
+ENGS.append(build(SDL, "c09_e", custom_default_resolver=universal, query_cache_decorator=DictCache()))
 LEAF = {"n": 3, "audit": "ok"}
 MID = {"n": 2, "leaf": LEAF, "leaves": [LEAF, {"n": 4, "audit": "x"}], "audit": "au", "bal": 10}
 DATA = {"first": MID, "second": MID, "nnroot": 1, "tok": "t0", "batch": [MID, dict(MID), dict(MID)], "codes": [1, 2, 3], "picks": [dict(MID), dict(MID), dict(MID)]}
@@ -106,7 +114,7 @@ DOCS = {
     "M7": ("mutation { first { n } picks { audit n } third(v: 7) }", [("picks", 1, "audit"), ("picks", 0, "audit"), ("picks", 2, "audit"), ("picks", 2, "n")], ["first", "picks", "third"]),
     "M5": ("mutation { first { n audit } tok third(v: 5) }", [("first", "n"), ("first", "audit")], ["first", "tok", "third"]),
 }
-ROOTS = ["Mutation", "Mutation", "Ops", "Changes"]
+ROOTS = ["Mutation", "Mutation", "Ops", "Changes"][:len(ENGS) - 1] + ["Mutation"]
 ARGROOT = {"M1": ("third", 1), "M2": ("b", 2), "M3": ("third", 3), "M4": ("x", 1), "M5": ("third", 5), "M6": ("third", 6), "M7": ("third", 7)}       # (response key, v) of the root field whose argument coercion is made to fail
 
 
